@@ -66,6 +66,17 @@ Access(s, b, d, w, wr, line) ==
            s2 == IF wr /\ ~rg.wr THEN Err(s1, line, "C10 store into read-only region " \o b.r) ELSE s1
        IN <<IF rg.sec THEN Sec ELSE Unk, Touch(s2, b.r, off, w, wr)>>
 
+\* effective base of a memory operand disp(BASE)(INDEX*SCALE): a secret index makes the address secret
+Idx(x, sc) == IF x.t = "pub" THEN Pub(x.v * sc) ELSE IF x.t = "sec" THEN Sec ELSE IF x.t = "undef" THEN Undef ELSE Unk
+MBase(s, o) ==
+  IF o.x = "" THEN s.g[o.r]
+  ELSE LET b == s.g[o.r]
+           i == Idx(s.g[o.x], o.sc)
+       IN IF b.t = "sec" \/ i.t = "sec" THEN Sec
+          ELSE IF b.t = "ptr" /\ i.t = "pub" THEN Ptr(b.r, b.v + i.v)
+          ELSE IF b.t = "pub" /\ i.t = "ptr" /\ o.sc = 1 THEN Ptr(i.r, b.v + i.v)
+          ELSE IF b.t = "pub" /\ i.t = "pub" THEN Pub(b.v + i.v)
+          ELSE Unk
 LowByte(x) == IF x.t = "pub" THEN Pub(x.v % 256) ELSE IF x.t = "ptr" THEN Unk ELSE x
 VecVal(t) == IF t = "sec" THEN Sec ELSE IF t = "pub" THEN Unk ELSE Undef
 Taint(x) == IF x.t = "sec" THEN "sec" ELSE IF x.t = "undef" THEN "undef" ELSE "pub"
@@ -79,7 +90,7 @@ Read(s, o, w, line) ==
     [] o.k = "v" -> <<VecVal(s.vr[o.r]), s>>
     [] o.k = "fp" -> IF o.v \in DOMAIN Ctx.slots THEN <<Ctx.slots[o.v], s>>
                      ELSE <<Unk, Err(s, line, "C11 read of an argument slot that does not exist")>>
-    [] o.k = "m" -> Access(s, s.g[o.r], o.v, w, FALSE, line)
+    [] o.k = "m" -> Access(s, MBase(s, o), o.v, w, FALSE, line)
     [] o.k = "sb" -> <<Ptr(o.r, o.v), s>>
     [] OTHER -> <<Undef, s>>
 
@@ -94,7 +105,7 @@ Write(s, o, val, w, line) ==
     [] o.k = "rb" -> [s EXCEPT !.g[o.r] = Merge(@, val, 1)]
     [] o.k = "kr" -> [s EXCEPT !.kr[o.r] = val]
     [] o.k = "v" -> [s EXCEPT !.vr[o.r] = Taint(val)]
-    [] o.k = "m" -> Access(s, s.g[o.r], o.v, w, TRUE, line)[2]
+    [] o.k = "m" -> Access(s, MBase(s, o), o.v, w, TRUE, line)[2]
     [] o.k = "fp" -> IF o.v >= Ctx.retfrom THEN s ELSE Err(s, line, "C10 store into an argument slot")
     [] OTHER -> Err(s, line, "unsupported destination")
 
@@ -195,7 +206,7 @@ Step ==
                        /\ UNCHANGED nsb
           [] ins.cl = "lea" ->
                LET v == IF ins.a.k = "sb" THEN Ptr(ins.a.r, ins.a.v)
-                        ELSE IF ins.a.k = "m" THEN Alu("add", s.g[ins.a.r], Pub(ins.a.v)) ELSE Unk
+                        ELSE IF ins.a.k = "m" THEN Alu("add", MBase(s, ins.a), Pub(ins.a.v)) ELSE Unk
                IN Commit(Write(s, ins.b, v, 8, ln), pc + 1) /\ UNCHANGED nsb
           [] ins.cl = "mov" ->
                LET ra == Read(s, ins.a, ins.w, ln)
@@ -228,7 +239,7 @@ Step ==
                   THEN Commit(Err(s, ln, "C09 mask register is not a public constant"), 0) /\ UNCHANGED nsb
                   ELSE LET w == BitLen(m.v) * ins.t
                            ld == ins.a.k = "m"
-                           ra == IF ld THEN Access(s, s.g[ins.a.r], ins.a.v, w, FALSE, ln) ELSE Read(s, ins.a, w, ln)
+                           ra == IF ld THEN Access(s, MBase(s, ins.a), ins.a.v, w, FALSE, ln) ELSE Read(s, ins.a, w, ln)
                        IN Commit(Write(ra[2], ins.b, ra[1], w, ln), pc + 1) /\ UNCHANGED nsb
           [] OTHER -> Commit(Err(s, ln, "unsupported instruction class " \o ins.cl), 0) /\ UNCHANGED nsb
 
